@@ -2,6 +2,7 @@
 import json, os, sys
 import common as C
 import gen_constants
+import lane_c16
 
 QUICK_SHARDS = 4
 THOROUGH_SHARDS = 16
@@ -177,6 +178,23 @@ PROPS = {
         assumptions=["'states read at its terminals' = Getter<State> on the device's own terminals immediately before update() (mean of own and connected partner), as the statement words it",
                      "forward bound 48*2^-24*sum|terms| per component; largest observed ratio per device reported; 'unchanged' for consistent inputs is within that bound",
                      "terminals the statement does not name for a case (e.g. the trusted branches of a differential with a distrusted branch) must keep their own slot bit-identical"],
+    ),
+    "C16": dict(
+        run=lane_c16.run, level=EXPL, crash_is_violation=True, bin="c16",
+        technique="Miri (undefined-behaviour interpreter) over the reached unsafe code + native differential with 0x7F-poisoned scratch arrays (--cfg rrtk_verif hook) + safe lifetime probe programs classified by borrow checker / Miri",
+        rule="poison lane: SumStream/ProductStream x f32/Quantity x arity 1..8 x every assignment of {absent, present, error} (exhaustive) with fresh values per draw, terminal read x 8 own/partner/connected combinations, Axle::<0..8>::new(); Miri lane: the same patterns ({absent,present,error}^N for N<=5, {absent,present}^N above; thorough to arity 10 and again under Tree Borrows), terminal reads/connect/disconnect, Axle<0..10>, one scenario per device and wrapper; probes: 11 terminal accessors x {drop the device, move the device} as #![forbid(unsafe_code)] programs + 4 control probes; distinct = pattern/variant, Miri process, probe program",
+        assumptions=["Miri sees only executed paths; the 'all safe programs' clause is sampled by 22 probe programs (+4 controls), not decided",
+                     "a probe rejected with borrow-checker error codes counts as 'holds'; a probe that compiles is run under Miri: dangling-reference diagnostic (drop) or old/new address mismatch (move) is a violation",
+                     "the Miri lanes build with the hook OFF (poisoning would initialise the memory Miri is there to watch)",
+                     "a monitor process killed by a signal in the poison lane is read as a violation (memory corruption), see props.on_crash"],
+    ),
+    "C20": dict(
+        run=native, level=EXPL, technique="recording and fault-injecting inner objects at the trait boundary; per-round differential against an oracle computed from the pre-update terminal read; bit-exact twin stand-alone CommandPID with identical wiring; exhaustive single-round grids",
+        rule="two exhaustive single-round grids (actuator 384 cells: own/partner state and command present or absent, linked or not, stamp order, inner accept/reject/update-error; encoder 64 cells: getter present/absent/error-1/error-2, inner update ok/error, own slots empty or filled, partner) plus three random families (actuator, encoder, pid) of 1..=32-round histories in which each round delivers a new state and/or command (all three kinds) to the external and/or own terminal or re-links / disconnects them, with scripted reject / update-error / getter present-absent-erroring; distinct = per-round sequence of (what the terminal saw, inner outcome) (+ twin output class for pid)",
+        assumptions=["'data the terminal sees' is read from the real terminal with Getter<TerminalData> immediately before update() (merge semantics belong to C03/C09)",
+                     "after a failing inner.set the actuator wrapper may either call or skip inner.update() (statement silent); exactly one inner.update() per wrapper update() otherwise",
+                     "PID wrapper compared bit-exactly (canonical bits) with a stand-alone CommandPID wired like the wrapper (shared Time clock, two ConstantGetters, PID following the command getter); the PID law itself is C11's job",
+                     "stamps |t| <= 2^40, non-decreasing with repeats; repeated stamps give inf/NaN on both sides and are compared canonically"],
     ),
 }
 NOT_APPLICABLE = {}
